@@ -1,5 +1,48 @@
-//! Conformance harness for specification-growth module g04 (see /verif/DESIGN.md 12.6).
+//! Conformance harness for specification-growth module G04 (see /verif/DESIGN.md 12.6):
+//! (A) tilde expansion (spec/Tilde.tla), (B) command search and the `command` /
+//! `type` built-ins (spec/CmdSearch.tla).
+//!
+//! spec -> impl:  `tilde-replay` / `cs-replay` take the vectors TLC enumerated
+//!                (Gen_Tilde, Gen_CmdSearch), run them in the real shell on the
+//!                simulated OS and report every disagreement;
+//! impl -> spec:  `tilde-random` / `cs-random` record what the real shell does on
+//!                random inputs; Trace_Tilde.tla / Trace_CmdSearch.tla judge the records;
+//! `one`:         re-runs a single replay record and writes the trace record.
+mod cmdsearch;
+mod common;
+mod tilde;
+
+use std::io::Write as _;
+use yvcommon::util;
+
+fn one(args: &[String]) -> i32 {
+    let mut line = String::new();
+    std::io::BufRead::read_line(&mut util::open_in(args), &mut line).unwrap();
+    let rec: serde_json::Value = serde_json::from_str(&line).expect("json");
+    let mut out = util::open_out(args);
+    let rc = if rec["kind"] == "cs" { cmdsearch::one(&rec, &mut *out) } else { tilde::one(&rec, &mut *out) };
+    out.flush().unwrap();
+    rc
+}
+
 fn main() {
-    eprintln!("yv-g04: not implemented yet");
-    std::process::exit(2);
+    util::quiet_panics();
+    let args: Vec<String> = std::env::args().collect();
+    if args.len() < 2 {
+        eprintln!("usage: yv-g04 <tilde-replay|tilde-random|cs-replay|cs-random|one> [--in F] [--out F] [--n N] [--threads T]");
+        std::process::exit(2);
+    }
+    let rest = &args[2..];
+    let code = match args[1].as_str() {
+        "tilde-replay" => tilde::replay(rest),
+        "tilde-random" => tilde::random(rest),
+        "cs-replay" => cmdsearch::replay(rest),
+        "cs-random" => cmdsearch::random(rest),
+        "one" => one(rest),
+        other => {
+            eprintln!("unknown subcommand {other}");
+            2
+        }
+    };
+    std::process::exit(code);
 }
